@@ -234,9 +234,12 @@ def stream_lockstep(ctx, n):
             gs.append(g)
     jobs = []
     for g in gs:
-        sents = [[ctx.rng.randrange(2) for _ in range(ctx.rng.randint(4, 7))] for _ in range(3)]
+        sents = []
+        for _ in range(3):   # sentences of the language (so that every prefix is viable), padded with random tokens when short
+            snt = M.random_sentence(ctx.rng, g, maxdepth=ctx.rng.randint(3, 6), maxlen=8) or []
+            sents.append((snt + [ctx.rng.randrange(2) for _ in range(4)])[: max(len(snt), 4)])
         ops = []
-        for L in range(0, 8):
+        for L in range(0, 9):
             for sidx in ctx.rng.sample(range(3), 3):
                 if L <= len(sents[sidx]):
                     ops.append(["p_next", sents[sidx][:L]])
@@ -283,7 +286,7 @@ def run(ctx):
     stream_exact(ctx, 20 if quick else 200, [0] if quick else [0, 1, 2])
     stream_float(ctx, 12 if quick else 120)
     stream_long(ctx, [50, 200] if quick else [50, 100, 200, 400])
-    stream_lockstep(ctx, 10 if quick else 80)
+    stream_lockstep(ctx, 24 if quick else 150)
 
 
 def replay(obj):
